@@ -26,6 +26,11 @@ CHECKS = {
          'Every parent form x child position x child form over a 48-form expression alphabet (all unary/binary/boolean/comparison/conditional/call/subscript/attribute/container/starred/lambda/f-string/comprehension forms), every operator chain of depth 3, 80 literal leaves and 40 values x 5 line lengths x 4 max-lines settings are rendered by the real PyvalColorizer; the shown text is parsed back with CPython and must be the same AST modulo the documented respellings; shortened output must be marked (is_complete false, ellipsis, prefix of the unlimited output). Thorough adds all depth-3 trees (650 k expressions). Failures are delta-minimised to the smallest failing sub-expression and classified, so known third-party (astor) deviations do not mask new ones.',
          'Trusted: CPython ast.parse/unparse as oracle; the form alphabet. Documented respellings (set([...]), quote style, numeric formatting) are normalised on both sides.',
          'DESIGN.md section 5, C15'),
+ 'C14': ('exploration',
+         'exhaustive enumeration of parameter layouts x return forms x contexts (and overload groups, default x annotation expressions) through the real signature renderer; CPython re-parse of the displayed text as oracle',
+         'All 5 449 valid layouts of up to 4 parameters (kind x default x annotation; thorough: also all 5-parameter layouts) x 3 return forms x {function, method, classmethod, staticmethod, async} are built into real modules, rendered with pages.format_signature / format_function_def / format_overloads and parsed back by CPython as `def f<text>: pass`: names, order, kinds (separators), default positions, default and annotation ASTs (string annotations unquoted, Literal kept) and the return annotation must equal the source. 5 449 overload groups of three overloads + implementation check that each overload shows its own signature; 18 defaults x 20 annotations x 3 shapes cover the expression dimension.',
+         'Trusted: CPython ast.parse as oracle; the layout generator (validated by ast.parse).',
+         'DESIGN.md section 5, C14'),
 }
 
 
